@@ -20,15 +20,17 @@ func init() {
 			"(E2) io.EOF can only originate from the first read of a block: the io.EOF of any other io.ReadFull (evaluated on the abstract value io.EOF through mappers, inline tests and intermediate callers) cannot reach the caller of the block reader unchanged; " +
 			"(E3) every slice `buf[:n]` of a scratch buffer made with a constant size (followed through parameters and re-slices) is reached only when guard facts, at the slice or at every success return of the function n comes from, establish n <= a constant not above the buffer's size and, for signed n, n >= 0; " +
 			"(E4) a blob that carries data in none of the supported encodings only reaches returns of a non-nil error; on the zlib path the decompressed length is compared with raw_size before data is returned, and that length is the length of the whole decompressed stream: the call that drains the decompressor reads the decompressor itself, not a wrapper limited to raw_size or less (also when the zlib branch is a helper that is handed the getter results as parameters); " +
-			"(E5) a header is only accepted through the required-features gate: a loop over all required features (range or index loop, in the header decoder or a helper) whose failed capability lookup returns an error, or reports the feature through result values with which every caller, evaluated on those values, returns an error; when the reader finds a block whose type is not OSMData, every path sends (or returns to the sending caller) a pair whose Err holds an error created for it and which carries no blob, no path skips the block; " +
+			"(E5) a header is only accepted through the required-features gate: a loop over all required features (range or index loop, in the header decoder or a helper) whose failed capability lookup returns an error, or reports the feature through result values with which every caller, evaluated on those values, returns an error; the block the spawner reads itself is held to the same rule as the others (evaluated for a type equal to none of the constants it is compared with, the pipeline is not started or the reader sends no blob it has not read and type-checked itself); when the reader finds a block whose type is not OSMData, every path sends (or returns to the sending caller) a pair whose Err holds an error created for it and which carries no blob, no path skips the block; " +
 			"(E6) every slice/string index or slice expression reachable from the decoding goroutines has a proof from the idiom list (constant, range key, guard facts establishing index < len with a non-negative index — also facts from the operands to the left in a short-circuit condition —, a constant index under a guard on the length, counter into a buffer sized by Iterator.Count of the iterator driving the loop; for x[lo:hi]: constant bounds within a fixed-length array, bounds established by guard facts 0 <= lo <= hi <= len/cap, a constant bound under a guard on the length, and the protoscan cursor invariant 0 <= I.Index <= len(I.Data) for I.Data[I.Index:] of one and the same iterator), optional message fields are nil-guarded or `required`; " +
 			"(E7) no panic call and no unchecked type assertion is reachable from the goroutine roles; " +
 			"(E8) with a stored error other than io.EOF, no return of Err that can be reached yields a possibly-nil value (locals holding the stored error or another value are followed path by path); " +
 			"(E9) the cached block's string table and parameters are reset before every block (shared with C01.R3), so the range checks of string references run against the block being decoded and a block without a string table is rejected instead of borrowing the previous block's strings. " +
 			"(E10) while one DenseNodes / Way / Relation message is decoded no iterator left over from an earlier group can be used (shared with C01.R2): a damaged group that lacks a mandatory column (ids, lat, lon) ends in the 'did not contain' error instead of being decoded from the previous group's column, because presence is established by state set while this message is scanned and not by cached fields that survive groups. " +
 			"(E11) every make of a slice or map whose size derives from a quantity decoded from the input (generated getters and fields of file messages, protoscan scalar reads, encoding/binary integers; followed through locals, arithmetic, conversions and parameters) has that quantity bounded from both sides by constants on every path, and the size arithmetic, evaluated over intervals in the Go types of its sub-expressions, can neither wrap nor go negative nor reach 2^31: otherwise a damaged size field panics in makeslice inside a goroutine of the decoder. " +
-			"(E12) the readers the blob-data function drains are traced back (locals, parameters, results, standard wrappers) to the constructor calls outside the module; a decompressor constructor must be in the table of implementations whose Read terminates when the compressed stream has ended and input is left over (compress/zlib, compress/flate): decided per build configuration, keyed on the function holding the constructor call and the resolved constructor. " +
+			"(E12) the readers the blob-data function drains are traced back (locals, parameters, results, standard wrappers) to the constructor calls outside the module; a decompressor constructor must be in the table of trusted implementations (compress/zlib, compress/flate): Read terminates when the compressed stream has ended and input is left over, and a stream whose input ends before the final block and checksum is an error, not a clean end: decided per build configuration, keyed on the function holding the constructor call and the resolved constructor. " +
 			"(E14) every HasNext() test of a column iterator in the decoding goroutines is the condition of a loop that reads that column, or its exhausted outcome ends in an error on every path: the per-element reads of the other columns are guarded by presence only, so a column that is shorter than the one driving the element loop ends the scan in the iterator's error instead of being treated like an absent column. " +
+			"(E15) a failed start is sticky: every consumer-side call of a decoder method that receives from a channel is only reached when the branch conditions establish, for every Scanner field that can hold the error returned by the start of the decoder (stored directly, through a local or through a wrapper), that it is nil; otherwise a damaged first block ends in a receive on a pipeline that was never started. " +
+			"(E16) every call that drains the decompressor below the blob-data function reads through io.LimitReader / *io.LimitedReader (followed through locals, parameters, results and the standard wrappers) or copies a fixed amount: the amount of inflated data held in memory is bounded before its length is compared with raw_size (E4 demands that the limit is above raw_size so that the comparison still sees oversize data). " +
 			"(E13) the pipeline's context is cancelled only by the serializer (on its way out, after forwarding) and by the consumer side, never by the reader or a worker: every stage drops what it holds once the context is done, so an upstream cancel loses the intact blocks still in flight in front of the error and the error itself. " +
 			"NOT decided: that the delivered prefix is correct (C01/C02), behaviour inside protoscan/protobuf/zlib (including whether a decoding library could itself return io.EOF), hangs inside libraries, memory exhaustion from huge declared sizes, column-length mismatches that neither index out of range nor exhaust an iterator, numeric thresholds other than the constant bounds of E3 and the `raw_size + c` form of E4.",
 		Assumptions: []string{"go/types, go/cfg (x/tools v0.29.0)",
@@ -52,11 +54,13 @@ func init() {
 			{ID: "E11", Floor: 1, Doc: "allocation sizes that derive from decoded quantities are bounded from both sides and their arithmetic cannot wrap", Run: c06E11},
 			{ID: "E12", Floor: 1, Doc: "the decompressor drained for the blob data comes from an implementation known to stop at the end of the compressed stream (one obligation per constructor and build configuration)", Run: c06E12},
 			{ID: "E14", Floor: 4, Doc: "a column iterator's HasNext is only a loop condition over that column, or its exhausted outcome is an error: a column that runs out early is not treated as absent", Run: c06E14},
+			{ID: "E15", Floor: 1, Doc: "no consumer-side receive from the pipeline unless every field that can hold the error of a failed start is known nil", Run: c06E15},
+			{ID: "E16", Floor: 1, Doc: "the decompressor is drained through a limiter (or by a fixed-size copy): the inflated data is bounded before it is compared with raw_size", Run: c06E16},
 			{ID: "E13", Floor: 1, Doc: "the reader and the workers never cancel the pipeline: results in flight in front of an error are not dropped", Run: c06E13},
 			{ID: "E9", Floor: 6, Doc: "string references are checked against the current block's string table: cached block parameters are reset before each block (shared with C01.R3)", Run: c01R3},
 		},
-		Benign: append(append(append(append(append(append(append([]core.Mutant{}, c06Benign...), c06Benign2...), c06Benign3...), c06Benign4...), c06Benign5...), c06Benign6...), c06Benign7...),
-		Mutants: append(append(append(append(append([]core.Mutant{}, c06Mutants2...), c06Mutants3...), c06Mutants4...), c06Mutants5...), []core.Mutant{
+		Benign: append(append(append(append(append(append(append(append([]core.Mutant{}, c06Benign...), c06Benign2...), c06Benign3...), c06Benign4...), c06Benign5...), c06Benign6...), c06Benign7...), c06Benign8...),
+		Mutants: append(append(append(append(append(append([]core.Mutant{}, c06Mutants2...), c06Mutants3...), c06Mutants4...), c06Mutants5...), c06Mutants6...), []core.Mutant{
 			{Name: "drop-iterator-error", File: "osmpbf/decode_data.go", Find: "\t\t\tdec.lats, err = msg.Iterator(dec.lats)\n\t\t\tfoundLats = true", Replace: "\t\t\tdec.lats, _ = msg.Iterator(dec.lats)\n\t\t\tfoundLats = true", ExpectRule: "E1", ExpectConstruct: "scanDenseNodes"},
 			{Name: "drop-msg-err", File: "osmpbf/decode_data.go", Find: "\tif msg.Err() != nil {\n\t\treturn msg.Err()\n\t}\n\n\t// we need the offsets", Replace: "\t// we need the offsets", ExpectRule: "E1", ExpectConstruct: "scanPrimitiveBlock"},
 			{Name: "overwrite-err-before-test", File: "osmpbf/decode_data.go", Find: "\t\t\tdec.vals, err = msg.Iterator(dec.vals)\n\t\t\tfoundVals = true\n\t\tcase 4: // info\n\t\t\td, err := msg.MessageData()\n\t\t\tif err != nil {\n\t\t\t\treturn nil, err\n\t\t\t}\n\n\t\t\tinfo := protoscan.New(d)\n\t\t\tfor info.Next() {\n\t\t\t\tswitch info.FieldNumber() {\n\t\t\t\tcase 1:\n\t\t\t\t\tv, err := info.Int32()\n\t\t\t\t\tif err != nil {\n\t\t\t\t\t\treturn nil, err\n\t\t\t\t\t}\n\t\t\t\t\tway.Version", Replace: "\t\t\tdec.vals, err = msg.Iterator(dec.vals)\n\t\t\tfoundVals = true\n\t\t\terr = nil\n\t\tcase 4: // info\n\t\t\td, err := msg.MessageData()\n\t\t\tif err != nil {\n\t\t\t\treturn nil, err\n\t\t\t}\n\n\t\t\tinfo := protoscan.New(d)\n\t\t\tfor info.Next() {\n\t\t\t\tswitch info.FieldNumber() {\n\t\t\t\tcase 1:\n\t\t\t\t\tv, err := info.Int32()\n\t\t\t\t\tif err != nil {\n\t\t\t\t\t\treturn nil, err\n\t\t\t\t\t}\n\t\t\t\t\tway.Version", ExpectRule: "E1", ExpectConstruct: "scanWays"},
